@@ -155,10 +155,31 @@ def check_windows(rb, m, offsets, known):
     return None
 
 
-def run_history(cap, container, hist, window_offsets, known):
+def roundtrip(rb):
+    """dump the buffer to disk and load it again (serialization.py): the loaded buffer must carry on identically."""
+    import os
+    import tempfile
+    from frequenz.sdk.timeseries._ringbuffer import serialization
+    fd, path = tempfile.mkstemp(suffix=".rb")
+    os.close(fd)
+    try:
+        serialization.dump(rb, path)
+        return serialization.load(path)
+    finally:
+        os.unlink(path)
+
+
+def run_history(cap, container, hist, window_offsets, known, roundtrip_at=None):
     rb = make_buffer(cap, container)
     m = Model(cap)
     for step, (slot, off, val) in enumerate(hist):
+        if roundtrip_at == step:
+            try:
+                rb = roundtrip(rb)
+            except Exception as e:  # pylint: disable=broad-except
+                return f"dump/load before update #{step} raised {type(e).__name__}: {e}"
+            if rb is None:
+                return f"load() returned None before update #{step}"
         ts = ts_of(slot, off)
         exp = m.update(ts, val)
         try:
@@ -219,9 +240,13 @@ def run(req):
             base += rng.choice([0, 0, 1, 1, 1, 2, cap, cap + 3, -1, -2])
             hist.append((max(0, base), rng.choice(offsets), rng.choice(values + [2.5, -3.0])))
         evaluations += 1
-        distinct.add((cap, container, tuple(hist)))
-        f = run_history(cap, container, hist, win_offsets, known)
+        # every third history: the buffer is dumped to disk and loaded again somewhere in the middle
+        rt = rng.randrange(1, n) if (evaluations % 3 == 0 and n > 1) else None
+        distinct.add((cap, container, tuple(hist), rt))
+        f = run_history(cap, container, hist, win_offsets, known, roundtrip_at=rt)
         if f:
+            if rt is not None:
+                f = f"(with a dump/load round trip before update #{rt}) " + f
             return result(False, f, cap, container, hist, evaluations, distinct, known, samples, t0, exhaustive=False)
     return result(True, None, None, None, None, evaluations, distinct, known, samples, t0, exhaustive=False)
 
@@ -231,7 +256,7 @@ def result(ok, failure, cap, container, hist, evaluations, distinct, known, samp
            "known": known, "samples": samples, "wall_s": round(time.time() - t0, 1),
            "rule": "update histories on a small scope (capacities 1-3, slots 0-5, offsets 0/+0.5/-0.25 period, values "
                    "valid/None/NaN, list and numpy; all histories up to length L) then seeded random histories up to "
-                   "length 40 on capacities up to 7; distinct = distinct (capacity, container, history) triples; every "
+                   "length 40 on capacities up to 7, every third one with a dump/load round trip in the middle; distinct = distinct (capacity, container, history) triples; every "
                    "history is non-trivial (at least one update)"}
     if not ok:
         out["failure"] = {"clause": "abstract sliding-map oracle", "detail": failure}
